@@ -3,6 +3,7 @@
 package props
 
 import (
+	"github.com/tdakkota/docker-logql/internal/logql"
 	"fmt"
 	"regexp"
 	"sort"
@@ -106,10 +107,18 @@ func genStatelessFilter(r *vk.RNG, d *Dataset) filt {
 		return filt{Text: "|~ " + re, Neg: "!~ " + re, Kind: "line-regex"}
 	case 4:
 		l := vk.Pick(r, c19Labels)
+		if r.Chance(1, 5) {
+			// the line itself is a label of the record (msg), not of its source
+			v := quoteLogQL(vk.Pick(r, d.Recs).Line)
+			return filt{Text: "| msg=" + v, Neg: "| msg!=" + v, Kind: "label-eq"}
+		}
 		v := quoteLogQL(vk.Pick(r, []string{"web", "prod", "p1", "", "info", "200", "alice", string(r.Bytes(2)), vk.Pick(r, d.Recs).Labels[l]}))
 		return filt{Text: "| " + l + "=" + v, Neg: "| " + l + "!=" + v, Kind: "label-eq"}
 	case 5:
 		l := vk.Pick(r, c19Labels)
+		if r.Chance(1, 5) {
+			l = "msg"
+		}
 		re := quoteLogQL(genRegex(r, 1))
 		return filt{Text: "| " + l + "=~" + re, Neg: "| " + l + "!~" + re, Kind: "label-regex"}
 	default:
@@ -130,7 +139,16 @@ func genStatelessFilter(r *vk.RNG, d *Dataset) filt {
 type rset map[int64]flatEntry
 
 func c19Eval(c *vk.Case, ds *Dataset, n int, text string) (rset, error) {
-	mq := &MemQuerier{Recs: ds.Recs, ErrAfter: -1}
+	// what the storage evaluates itself and where it keeps a label is its own business: both vary with
+	// the case (not with the evaluation, so that the laws compare like with like)
+	var caps []logql.BinOp
+	if c.Idx%3 != 0 {
+		caps = allStrOps
+	}
+	mq := &MemQuerier{Recs: ds.Recs, ErrAfter: -1, LabelCaps: caps, LineCaps: caps}
+	if c.Idx%4 == 1 {
+		mq.RecordLevel = map[string]bool{"env": true, "raw": true, "pod": true}
+	}
 	res, err := evalQuery(mq, text, logRangeParams(n))
 	c.Eval(1)
 	if err != nil {
@@ -198,6 +216,15 @@ func runC19(r *vk.Run) {
 			}
 			if n := len(q.Stages); n > 0 && (q.Stages[n-1].Kind == "drop" || q.Stages[n-1].Kind == "keep") {
 				q.Stages = q.Stages[:n-1] // a following `!= "x"` would be read as part of the drop/keep list
+			}
+			if c.Idx%6 == 5 {
+				// long prefixes: 9..20 further stages whose order matters (each appends a letter to the
+				// same label), so a filter that re-arranges what precedes it cannot go unnoticed
+				k := rng.Range(9, 20)
+				for j := 0; j < k; j++ {
+					q.Stages = append(q.Stages, Stage{Kind: "label_format", Text: fmt.Sprintf(`| label_format acc="{{.acc}}%c"`, 'a'+j)})
+				}
+				c.Count("long_prefix_pipelines", 1)
 			}
 			qt = q.Text()
 			base, err = c19Eval(c, ds, n, qt)
